@@ -393,6 +393,12 @@ impl Inventory {
             None => return Err(not_found_path(&self.id, src_version_num, src_path)),
         };
 
+        self.head_version().validate_non_conflicting(&dst_path)?;
+        // If the destination is a file that was added in the head version, then its content
+        // is no longer referenced and its manifest entry must be removed
+        let dst_content_path = self.new_content_path(&dst_path);
+        self.manifest.remove_path(&dst_content_path);
+
         self.head_version_mut().add_file(digest, dst_path)
     }
 
@@ -403,12 +409,18 @@ impl Inventory {
         src_path: &LogicalPath,
         dst_path: LogicalPath,
     ) -> Result<()> {
-        let head = self.head_version_mut();
-        let digest = match head.lookup_digest(src_path) {
+        let digest = match self.head_version().lookup_digest(src_path) {
             Some(digest) => digest.clone(),
             None => return Err(not_found_path(&self.id, self.head, src_path)),
         };
 
+        self.head_version().validate_non_conflicting(&dst_path)?;
+        // If the destination is a file that was added in the head version, then its content
+        // is no longer referenced and its manifest entry must be removed
+        let dst_content_path = self.new_content_path(&dst_path);
+        self.manifest.remove_path(&dst_content_path);
+
+        let head = self.head_version_mut();
         head.add_file(digest, dst_path)?;
         head.remove_file(src_path);
         Ok(())
